@@ -18,6 +18,7 @@
    sector roots of contracts whose window elapsed, and of renewed v2 contracts, are removed
    from the store but stay in the manager's cache until the next start.  No proofs here. *)
 From HostdBase Require Import Base.
+From Coq Require Import Permutation.
 Set Implicit Arguments.
 
 (** * State *)
@@ -340,6 +341,24 @@ Definition coh (s : state) : Prop :=
   (open_count (m_bal (mem s)) = List.length (budgets s) /\ Forall (fun e => (1 <= snd (snd e))%N) (m_bal (mem s))) /\
   m_vols (mem s) = map fst (d_vols (db s)) /\
   m_tip (mem s) = d_tip (db s).
+
+(* two hosts that cannot be told apart: same store, and in-memory state equal up to the
+   representation of the root cache and the order of the scope tree *)
+Definition mequiv (m1 m2 : mems) : Prop :=
+  (forall c, roots_of (m_roots m1) c = roots_of (m_roots m2) c) /\
+  NoDup (map fst (m_roots m1)) /\ NoDup (map fst (m_roots m2)) /\
+  m_hooks m1 = m_hooks m2 /\ Permutation (m_tree m1) (m_tree m2) /\
+  m_settings m1 = m_settings m2 /\ m_bal m1 = m_bal m2 /\ m_vols m1 = m_vols m2 /\ m_tip m1 = m_tip m2.
+
+Definition sequiv (s1 s2 : state) : Prop :=
+  db s1 = db s2 /\ NoDup (map fst (d_roots (db s1))) /\ budgets s1 = budgets s2 /\ mequiv (mem s1) (mem s2).
+
+(* what the outside sees of a history *)
+Fixpoint observations (s : state) (l : list op) : list obs :=
+  match l with
+  | [] => []
+  | o :: t => snd (step s o) :: observations (fst (step s o)) t
+  end.
 
 (** * Observation equality *)
 Definition pair_eqb {A B} (ea : A -> A -> bool) (eb : B -> B -> bool) (x y : A * B) : bool :=
